@@ -29,7 +29,7 @@ def tags_for(ev, clauses):
 def self_test(ctx: Ctx):
     r = {"k": "refl", "centering": "I", "hkl": [[1, 0, 0], [1, 1, 0], [-1, 2, 1]], "allowed": [False, True, True], "raised": False}
     s = {"k": "sf", "centering": "C", "raised": False, "friedel_ppb": 10, "mag": [[1, 0, 0, 3], [1, 1, 0, 700000000], [0, 0, 1, 900000000], [0, 1, 0, 12]],
-         "tabulated": [[1, 1, 0], [0, 0, 1]], "translation_ppb": 5, "imag_ppb": 0, "lazy_ppb": 0, "auto_dropped_nonzero": 0, "friedel_missing": 0}
+         "tabulated": [[1, 1, 0], [0, 0, 1]], "translation_ppb": 5, "imag_ppb": 0, "period_ppb": 0, "lazy_ppb": 0, "auto_dropped_nonzero": 0, "friedel_missing": 0}
     bads = [dict(r, allowed=[True, True, True]), dict(r, raised=True), dict(s, mag=[[1, 0, 0, 10 ** 7]] + s["mag"][1:]), dict(s, tabulated=[[1, 1, 0], [0, 0, 1], [1, 0, 0]]),
             dict(s, tabulated=[[1, 1, 0]]), dict(s, friedel_ppb=10 ** 6), dict(s, translation_ppb=10 ** 6), dict(s, imag_ppb=10 ** 6), dict(s, auto_dropped_nonzero=3), dict(s, friedel_missing=2)]
     res = ctx.validate("BlochTrace", [[r], [s]] + [[b] for b in bads], "BlochTrace.cfg")
